@@ -52,6 +52,12 @@ def corpus():
     add("softmax-logsumexp", lambda v: jax.nn.logsumexp(v) + jnp.sum(jax.nn.softmax(v) * v), (3,))
     add("reshape-concat", lambda m: jnp.sum(jnp.concatenate([m.reshape(-1), m[0]]) ** 2), (2, 3))
     add("cumsum-sort", lambda v: jnp.sum(jnp.cumsum(v) * jnp.sort(v)), (3,))
+    # ARRAY-valued symbolic-zero tangents (round / floor / sign / stop_gradient) consumed by shape-sensitive primitives (seeded C15_8)
+    add("symzero-dot", lambda v: jnp.dot(jnp.sign(v), v), (3,))
+    add("symzero-matT", lambda m: jnp.sum(jnp.floor(m * 3.0).T @ m), (2, 3))
+    add("symzero-slice", lambda v: jnp.sum(jax.lax.stop_gradient(v)[1:] * v[:2]), (3,))
+    add("symzero-straight-through", lambda v: jnp.sum((v + jax.lax.stop_gradient(jnp.round(v * 2.0) - v)) ** 2), (3,))
+    add("symzero-reduce-reshape", lambda m: jnp.sum(jnp.ceil(m).reshape(3, 2)[1:] + m.reshape(3, 2)[:2] ** 2), (2, 3))
     return L
 
 
@@ -402,10 +408,60 @@ def library_functions(G, ctx):
             ctx.count("library-function")
 
 
+def array_valued_outputs(G, ctx):
+    """programs whose RESULT is a single array (jvp_estimate's declared return type is one Dual; tuple / dict results are rejected by its
+    own type annotation and are not judged here), with a symbolic-zero tangent for all or part of it: jvp_estimate must return
+    primal and tangent with the shapes, dtypes and values of jax.jvp - a zero tangent is a zero ARRAY of the output's shape."""
+    import jax
+    import jax.numpy as jnp
+    A = __import__("genjax.adev", fromlist=["x"])
+    v = jnp.asarray([0.4, -1.3, 2.6], jnp.float32)
+    m = jnp.asarray([[0.25, -0.75, 1.5], [2.25, 0.5, -1.0]], jnp.float32)
+    fams = [
+        ("round of a vector", lambda x: jnp.round(x), v),
+        ("sign of a vector", lambda x: jnp.sign(x), v),
+        ("floor of a matrix, transposed", lambda x: jnp.floor(x).T, m),
+        ("stop_gradient slice", lambda x: jax.lax.stop_gradient(x)[1:], v),
+        ("dead and live halves concatenated", lambda x: jnp.concatenate([jax.lax.stop_gradient(x)[1:], x[:2] * x[1:]]), v),
+        ("smooth vector output (control)", lambda x: jnp.sin(x) * x, v),
+        ("scalar round (control)", lambda x: jnp.round(x) + x, jnp.float32(1.4)),
+    ]
+    for name, f, arg in fams:
+        case = {"kind": "array-valued-output", "program": name}
+        tan = jnp.ones_like(arg) * 0.5
+        try:
+            wp, wt = jax.jvp(f, (arg,), (tan,))
+            d = A.expectation(f).jvp_estimate(A.Dual(arg, tan))
+            gp, gt = jtu_leaves(jax, d, A)
+            lw_p, lw_t = jax.tree_util.tree_leaves(wp), jax.tree_util.tree_leaves(wt)
+            for what, got, want in (("primal", gp, lw_p), ("tangent", gt, lw_t)):
+                if len(got) != len(want) or any(np.shape(a) != np.shape(b) or np.asarray(a).dtype != np.asarray(b).dtype
+                                               or not np.allclose(np.asarray(a), np.asarray(b), rtol=1e-5, atol=1e-6) for a, b in zip(got, want)):
+                    ctx.property_failure(None, f"{name}: jvp_estimate {what} {[ (np.shape(a), np.asarray(a).tolist()) for a in got]} differs from jax.jvp "
+                                               f"{[(np.shape(b), np.asarray(b).tolist()) for b in want]}", case)
+        except Exception as ex:
+            impl.reset_handlers()
+            ctx.property_failure(None, f"{name} raised {type(ex).__name__}: {str(ex)[:160]}", case)
+        ctx.case(sample=case if "floor" in name else None, nontrivial_key=("array-valued-output", name))
+        ctx.count("array-valued-output")
+
+
+def jtu_leaves(jax, d, A):
+    """primal / tangent leaves of what jvp_estimate returned (a Dual, or a pytree of Duals)"""
+    is_dual = lambda x: isinstance(x, A.Dual)
+    duals = jax.tree_util.tree_leaves(d, is_leaf=is_dual)
+    ps, ts = [], []
+    for x in duals:
+        ps += jax.tree_util.tree_leaves(x.primal)
+        ts += jax.tree_util.tree_leaves(x.tangent)
+    return ps, ts
+
+
 def run(ctx, audit):
     G = impl.load()
     rng = ctx.rng
     interpreter_limits(G, ctx)
+    array_valued_outputs(G, ctx)
     library_functions(G, ctx)
     python_scalar_arguments(G, ctx)
     for name, f, shapes in corpus():
@@ -428,8 +484,10 @@ def replay(ctx, payload):
         kinds = list(c["kinds"])
         rich_case(G, ctx, c.get("name", "replay"), D.from_sexp(sexp.loads(c["program"])), int(c["out"]), kinds,
                   [Fr(v) for v in c["values"]], [None if t == "None" else Fr(t) for t in c["tangents"]])
+    if c.get("kind") == "array-valued-output":
+        array_valued_outputs(G, ctx)
     for name, f, shapes in corpus():
-        if c.get("kind") == "rich-program":
+        if c.get("kind") in ("rich-program", "array-valued-output"):
             break
         if name == c.get("program") or c.get("kind") != "det-program":
             check_one(G, ctx, name, f, shapes, rng)
